@@ -94,9 +94,15 @@ def h_swap(rp, l, o):
 
 
 def h_permute(rp, l, o):
-    perm = list(l['perm'])
+    # the permutation as the documented ndarray, which the caller keeps using: it must not be modified
+    perm = np.array(list(l['perm']), dtype=np.intp)
+    keep = perm.copy()
     hm.quiet(rp.psi.permute_sites, perm)
-    return dict(sig=dict(involution=all(perm[perm[k]] == k for k in range(len(perm)))))
+    sig = dict(involution=all(keep[keep[k]] == k for k in range(len(keep))))
+    if not np.array_equal(perm, keep):
+        rp.violation('permute_sites', 'argument-modified', dict(got=perm.tolist(), expected=keep.tolist()), **sig)
+        return False
+    return dict(sig=sig)
 
 
 def h_add(rp, l, o):
